@@ -745,6 +745,8 @@ def nvec(vals, f):
         return int(vals[0])
     if f == 'npint':
         return np.int64(vals[0])
+    if f == 'arr0d':
+        return np.array(int(vals[0]))           # a 0-d array is a scalar too
     if f == 'list':
         return [int(v) for v in vals]
     if f == 'tuple':
@@ -752,8 +754,19 @@ def nvec(vals, f):
     return np.array(vals, dtype=int if f == 'array' else f)
 
 
+SCALAR_FORMS = {'py': int, 'np.int8': np.int8, 'np.int16': np.int16, 'np.int32': np.int32, 'np.int64': np.int64,
+                'np.uint8': np.uint8, 'np.uint16': np.uint16, 'np.uint32': np.uint32, 'np.uint64': np.uint64,
+                'np.intp': np.intp, 'arr0d': lambda v: np.array(int(v))}
+
+
 def scalar(v, f):
-    return {'py': int, 'np.int8': np.int8, 'np.int16': np.int16, 'np.int64': np.int64}[f or 'py'](v)
+    """an index / a count in one of the integer forms (R9)"""
+    f = f or 'py'
+    if f in ('np.int8',) and v > 127:
+        f = 'np.int16'
+    if f in ('np.uint8',) and v > 255:
+        f = 'np.uint16'
+    return SCALAR_FORMS[f](v)
 
 
 def arrays_of(o):
@@ -779,6 +792,213 @@ def deep(o):
     return o
 
 
+def do_op(ch, ext, op, rec, args):
+    """one operation of a history on the real object `ch` (positional or keyword arguments, R8)"""
+    kind = op['op']
+    kw = bool(op.get('kw'))
+
+    def call(fn, vals, names):
+        return fn(**dict(zip(names, vals))) if kw else fn(*vals)
+    if True:
+        if kind in ('init', 'rand'):
+            nr, nt, K, ntE = op['nr'], op['nt'], op['K'], op['ntE']
+            Nr, Nt = nvec(nr, op.get('nrf', 'array')), nvec(nt, op.get('ntf', 'array'))
+            NtE = nvec(ntE, op.get('ntef', 'array')) if ext else None
+            Kv = scalar(K, op.get('kf', 'py'))
+            if kind == 'init':
+                a = Arg('channel_matrix', unj(op['M'], sum(nt) + sum(ntE)), op.get('fM'))
+                args.append(a)
+                if ext:
+                    call(ch.init_from_channel_matrix, [a.obj, Nr, Nt, Kv, NtE],
+                         ['channel_matrix', 'Nr', 'Nt', 'K', 'NtE'])
+                else:
+                    call(ch.init_from_channel_matrix, [a.obj, Nr, Nt, Kv], ['channel_matrix', 'Nr', 'Nt', 'K'])
+            else:
+                if op.get('reseed'):
+                    ch.re_seed()                  # == set_channel_seed(None); set_noise_seed(None)
+                else:
+                    call(ch.set_channel_seed, [op['seed']], ['seed'])
+                if ext:
+                    call(ch.randomize, [Nr, Nt, Kv, NtE], ['Nr', 'Nt', 'K', 'NtE'])
+                else:
+                    call(ch.randomize, [Nr, Nt, Kv], ['Nr', 'Nt', 'K'])
+            rec['raw'] = np.array(ch._big_H_no_pathloss)
+        elif kind == 'setpl':
+            if op['p'] is None:
+                if op.get('noarg'):
+                    ch.set_pathloss()
+                elif ext:
+                    call(ch.set_pathloss, [None, None], ['pathloss_matrix', 'ext_int_pathloss'])
+                else:
+                    call(ch.set_pathloss, [None], ['pathloss_matrix'])
+            else:
+                ncol = len(op['p'][0]) if op['p'] else 0
+                a = Arg('pathloss_matrix', unjr(op['p'], ncol), op.get('fp'))
+                args.append(a)
+                if ext:
+                    ne = len(op['pe'][0]) if op['pe'] else 0
+                    b = Arg('ext_int_pathloss', unjr(op['pe'], ne), op.get('fpe'))
+                    args.append(b)
+                    call(ch.set_pathloss, [a.obj, b.obj], ['pathloss_matrix', 'ext_int_pathloss'])
+                else:
+                    call(ch.set_pathloss, [a.obj], ['pathloss_matrix'])
+        elif kind == 'noise':
+            if op['v'] is None:
+                ch.noise_var = None
+            else:
+                v = float(Fraction(op['v']))
+                vf = op.get('vf', 'float')
+                ch.noise_var = {'float': float, 'int': int, 'np.float32': np.float32,
+                                'np.float16': np.float16, 'np.int8': np.int8,
+                                'arr0d': lambda t: np.array(float(t))}[vf](v)
+        elif kind == 'setw':
+            if op['w'] is None:
+                call(ch.set_post_filter, [None], ['filters'])
+            else:
+                fws = op.get('fws') or [op.get('fw')] * len(op['w'])
+                ws = [Arg('filter%d' % i, unj(w), fws[i]) for i, w in enumerate(op['w'])]
+                args += ws
+                objs = [w.obj for w in ws]
+                call(ch.set_post_filter, [objs if (op.get('as_list') or any(isinstance(o, list) for o in objs))
+                                          else objarr(objs)], ['filters'])
+        elif kind == 'H':
+            rec['out'] = ch.H
+        elif kind == 'bigH':
+            rec['out'] = ch.big_H
+        elif kind == 'Hkl':
+            rec['out'] = call(ch.get_Hkl, [scalar(op['k'], op.get('kf')), scalar(op['l'], op.get('kf'))], ['k', 'l'])
+        elif kind == 'Hk':
+            k = scalar(op['k'], op.get('kf'))
+            rec['out'] = call(ch.get_Hk_with_ext_int if op.get('alt') else ch.get_Hk, [k], ['k'])
+        elif kind == 'bigHne':
+            rec['out'] = ch.big_H_no_ext_int
+        elif kind == 'Hkne':
+            rec['out'] = call(ch.get_Hk_without_ext_int, [scalar(op['k'], op.get('kf'))], ['k'])
+        elif kind == 'Hne':
+            rec['out'] = ch.H_no_ext_int
+        elif kind == 'layout':
+            rec['out'] = ('layout', int(ch.K), [int(v) for v in np.atleast_1d(ch.Nr)],
+                          [int(v) for v in np.atleast_1d(ch.Nt)],
+                          [int(v) for v in np.atleast_1d(ch.extIntNt)] if ext else [],
+                          int(ch.extIntK) if ext else 0)
+        elif kind == 'pl':
+            rec['out'] = ('opt', ch.pathloss)
+        elif kind == 'bigW':
+            bw = ch.big_W
+            w = ch.W
+            rec['out'] = ('opt', bw)
+            rec['W'] = None if w is None else [np.array(x) for x in w]
+        elif kind == 'nv':
+            rec['out'] = ('sc', ch.noise_var)
+        elif kind == 'ln':
+            rec['out'] = ('opt', ch.last_noise)
+        elif kind in ('corrupt', 'corruptc'):
+            call(ch.set_noise_seed, [op['nseed']], ['seed'])
+            ns = op.get('ns')
+            nb = len(op['x']) + len(op['xe'])
+            fxs = op.get('fxs') or [op.get('fx')] * nb
+            xs = [Arg('data%d' % i, unj(m) if ns is None else unj(m).reshape(len(m), ns), fxs[i])
+                  for i, m in enumerate(op['x'])]
+            xes = [Arg('ext_data%d' % i, unj(m) if ns is None else unj(m).reshape(len(m), ns),
+                       fxs[len(op['x']) + i]) for i, m in enumerate(op['xe'])]
+            args += xs + xes
+            if kind == 'corruptc':
+                # the caller stacks (numpy promotes over all blocks) and may pass any layout
+                big = Arg('data', np.vstack([np.asarray(a.obj) for a in xs + xes]),
+                          {'dt': None, 'lay': (op.get('fx') or {}).get('lay', 'C')})
+                args[:] = [a_ for a_ in args if a_ not in xs + xes] + [big]
+                rec['out'] = call(ch.corrupt_concatenated_data, [big.obj], ['data'])
+            else:
+                # what corrupt_data hands to corrupt_concatenated_data (the stacked transmit data)
+                seen = []
+                inner = ch.corrupt_concatenated_data
+
+                def spy(data, _inner=inner, _seen=seen):
+                    _seen.append(np.array(data))
+                    return _inner(data)
+                ch.corrupt_concatenated_data = spy
+                try:
+                    cont = {'objarr': objarr, 'list': list, 'tuple': tuple}[op.get('xcont', 'objarr')]
+                    if ext:
+                        rec['out'] = call(ch.corrupt_data, [objarr([a.obj for a in xs]),
+                                                            objarr([a.obj for a in xes])], ['data', 'ext_int_data'])
+                    else:
+                        rec['out'] = call(ch.corrupt_data, [cont([a.obj for a in xs])], ['data'])
+                finally:
+                    del ch.corrupt_concatenated_data
+                    rec['stacked'] = seen[0] if seen else None
+        elif kind == 'query':
+            # R11: public methods that are not setters (their values belong to other properties): whatever they
+            # return or raise, the channel must be what it was
+            import copy
+            import pickle
+            K = int(ch.K)
+            Nr, Nt = np.atleast_1d(ch.Nr), np.atleast_1d(ch.Nt)
+            Fs = [Arg('F%d' % k, np.ones((int(Nt[k]), 1), dtype=complex) * (1 + k + 1j), None) for k in range(K)]
+            Us = [Arg('U%d' % k, np.ones((int(Nr[k]), 1), dtype=complex) * (2 - k * 1j), None) for k in range(K)]
+            args += Fs + Us
+            F, U = objarr([a.obj for a in Fs]), objarr([a.obj for a in Us])
+            which = op['which']
+            try:
+                if which == 'calc_Q':
+                    ch.calc_Q(op['k'] % max(K, 1), F, *([0.5] if ext else []))
+                elif which == 'calc_JP_Q':
+                    ch.calc_JP_Q(op['k'] % max(K, 1), F, *([0.5] if ext else []))
+                elif which == 'calc_SINR':
+                    ch.calc_SINR(F, U, *([0.5] if ext else []))
+                elif which == 'calc_JP_SINR':
+                    ch.calc_JP_SINR(F, U, *([0.5] if ext else []))
+                elif which == 'cov_extint':
+                    ch.calc_cov_matrix_extint_without_noise(pe=0.5)
+                    ch.calc_cov_matrix_extint_plus_noise(pe=0.5)
+                elif which == 'copy':
+                    copy.copy(ch)
+                elif which == 'deepcopy':
+                    copy.deepcopy(ch)
+                elif which == 'pickle':
+                    pickle.loads(pickle.dumps(ch))
+                elif which == 'repr':
+                    repr(ch), str(ch), ch == ch, hash(ch)
+            except Exception as e:   # noqa: the value (or failure) of the query is not part of this property
+                rec['qexc'] = type(e).__name__
+        else:
+            raise core.Infra('unknown op %r' % kind)
+
+
+def detach(rec):
+    o = rec['out']
+    if isinstance(o, tuple):
+        rec['out'] = (o[0], deep(o[1])) + tuple(o[2:]) if o[0] in ('opt',) else o
+    elif o is not None:
+        rec['out'] = deep(o)
+
+
+def run_child(ch, ext, op):
+    """R13: an object derived from the channel (copy / deepcopy / pickle round trip) is used and mutated on its
+    own; returns the records of the operations done on the child"""
+    import copy
+    import pickle
+    how = op['how']
+    child = {'copy': copy.copy, 'deepcopy': copy.deepcopy,
+             'pickle': lambda c: pickle.loads(pickle.dumps(c))}[how](ch)
+    crecs = []
+    for cop in op['child']:
+        crec = {'out': None, 'exc': None, 'r3': []}
+        try:
+            do_op(child, ext, cop, crec, [])
+        except core.Infra:
+            raise
+        except Exception as e:   # noqa
+            crec['exc'] = type(e).__name__
+            crec['msg'] = str(e)[:160]
+        if cop['op'] in ('corrupt', 'corruptc'):
+            ln = child.last_noise
+            crec['noise'] = None if ln is None else np.array(ln)
+        detach(crec)
+        crecs.append(crec)
+    return crecs
+
+
 def run_impl(case, want_obj=False):
     """Execute a history on the real class.  One record per op: {'out', 'exc', 'raw', 'noise', 'r3': [...]}"""
     mu = _impl()
@@ -794,130 +1014,10 @@ def run_impl(case, want_obj=False):
             kind = op['op']
             args = []
             try:
-                if kind in ('init', 'rand'):
-                    nr, nt, K, ntE = op['nr'], op['nt'], op['K'], op['ntE']
-                    Nr, Nt = nvec(nr, op.get('nrf', 'array')), nvec(nt, op.get('ntf', 'array'))
-                    NtE = nvec(ntE, op.get('ntef', 'array')) if ext else None
-                    Kv = scalar(K, op.get('kf', 'py'))
-                    if kind == 'init':
-                        a = Arg('channel_matrix', unj(op['M'], sum(nt) + sum(ntE)), op.get('fM'))
-                        args.append(a)
-                        if ext:
-                            ch.init_from_channel_matrix(a.obj, Nr, Nt, Kv, NtE)
-                        else:
-                            ch.init_from_channel_matrix(a.obj, Nr, Nt, Kv)
-                    else:
-                        ch.set_channel_seed(op['seed'])
-                        if ext:
-                            ch.randomize(Nr, Nt, Kv, NtE)
-                        else:
-                            ch.randomize(Nr, Nt, Kv)
-                    rec['raw'] = np.array(ch._big_H_no_pathloss)
-                elif kind == 'setpl':
-                    if op['p'] is None:
-                        if ext and not op.get('noarg'):
-                            ch.set_pathloss(None, None)
-                        elif op.get('noarg'):
-                            ch.set_pathloss()
-                        else:
-                            ch.set_pathloss(None)
-                    else:
-                        ncol = len(op['p'][0]) if op['p'] else 0
-                        a = Arg('pathloss_matrix', unjr(op['p'], ncol), op.get('fp'))
-                        args.append(a)
-                        if ext:
-                            ne = len(op['pe'][0]) if op['pe'] else 0
-                            b = Arg('ext_int_pathloss', unjr(op['pe'], ne), op.get('fpe'))
-                            args.append(b)
-                            ch.set_pathloss(a.obj, b.obj)
-                        else:
-                            ch.set_pathloss(a.obj)
-                elif kind == 'noise':
-                    if op['v'] is None:
-                        ch.noise_var = None
-                    else:
-                        v = float(Fraction(op['v']))
-                        vf = op.get('vf', 'float')
-                        ch.noise_var = {'float': float, 'int': int, 'np.float32': np.float32,
-                                        'np.float16': np.float16, 'np.int8': np.int8}[vf](v)
-                elif kind == 'setw':
-                    if op['w'] is None:
-                        ch.set_post_filter(None)
-                    else:
-                        fws = op.get('fws') or [op.get('fw')] * len(op['w'])
-                        ws = [Arg('filter%d' % i, unj(w), fws[i]) for i, w in enumerate(op['w'])]
-                        args += ws
-                        objs = [w.obj for w in ws]
-                        ch.set_post_filter(objs if (op.get('as_list') or any(isinstance(o, list) for o in objs))
-                                           else objarr(objs))
-                elif kind == 'H':
-                    rec['out'] = ch.H
-                elif kind == 'bigH':
-                    rec['out'] = ch.big_H
-                elif kind == 'Hkl':
-                    rec['out'] = ch.get_Hkl(scalar(op['k'], op.get('kf')), scalar(op['l'], op.get('kf')))
-                elif kind == 'Hk':
-                    k = scalar(op['k'], op.get('kf'))
-                    rec['out'] = ch.get_Hk_with_ext_int(k) if op.get('alt') else ch.get_Hk(k)
-                elif kind == 'bigHne':
-                    rec['out'] = ch.big_H_no_ext_int
-                elif kind == 'Hkne':
-                    rec['out'] = ch.get_Hk_without_ext_int(scalar(op['k'], op.get('kf')))
-                elif kind == 'Hne':
-                    rec['out'] = ch.H_no_ext_int
-                elif kind == 'layout':
-                    rec['out'] = ('layout', int(ch.K), [int(v) for v in np.atleast_1d(ch.Nr)],
-                                  [int(v) for v in np.atleast_1d(ch.Nt)],
-                                  [int(v) for v in np.atleast_1d(ch.extIntNt)] if ext else [],
-                                  int(ch.extIntK) if ext else 0)
-                elif kind == 'pl':
-                    rec['out'] = ('opt', ch.pathloss)
-                elif kind == 'bigW':
-                    bw = ch.big_W
-                    w = ch.W
-                    rec['out'] = ('opt', bw)
-                    rec['W'] = None if w is None else [np.array(x) for x in w]
-                elif kind == 'nv':
-                    rec['out'] = ('sc', ch.noise_var)
-                elif kind == 'ln':
-                    rec['out'] = ('opt', ch.last_noise)
-                elif kind in ('corrupt', 'corruptc'):
-                    ch.set_noise_seed(op['nseed'])
-                    ns = op.get('ns')
-                    nb = len(op['x']) + len(op['xe'])
-                    fxs = op.get('fxs') or [op.get('fx')] * nb
-                    xs = [Arg('data%d' % i, unj(m) if ns is None else unj(m).reshape(len(m), ns), fxs[i])
-                          for i, m in enumerate(op['x'])]
-                    xes = [Arg('ext_data%d' % i, unj(m) if ns is None else unj(m).reshape(len(m), ns),
-                               fxs[len(op['x']) + i]) for i, m in enumerate(op['xe'])]
-                    args += xs + xes
-                    if kind == 'corruptc':
-                        # the caller stacks (numpy promotes over all blocks) and may pass any layout
-                        big = Arg('data', np.vstack([np.asarray(a.obj) for a in xs + xes]),
-                                  {'dt': None, 'lay': (op.get('fx') or {}).get('lay', 'C')})
-                        args = [big]
-                        rec['out'] = ch.corrupt_concatenated_data(big.obj)
-                    else:
-                        # what corrupt_data hands to corrupt_concatenated_data (the stacked transmit data)
-                        seen = []
-                        inner = ch.corrupt_concatenated_data
-
-                        def spy(data, _inner=inner, _seen=seen):
-                            _seen.append(np.array(data))
-                            return _inner(data)
-                        ch.corrupt_concatenated_data = spy
-                        try:
-                            cont = {'objarr': objarr, 'list': list, 'tuple': tuple}[op.get('xcont', 'objarr')]
-                            if ext:
-                                rec['out'] = ch.corrupt_data(objarr([a.obj for a in xs]),
-                                                             objarr([a.obj for a in xes]))
-                            else:
-                                rec['out'] = ch.corrupt_data(cont([a.obj for a in xs]))
-                        finally:
-                            del ch.corrupt_concatenated_data
-                            rec['stacked'] = seen[0] if seen else None
+                if kind == 'fork':
+                    rec['child'] = run_child(ch, ext, op)
                 else:
-                    raise core.Infra('unknown op %r' % kind)
+                    do_op(ch, ext, op, rec, args)
             except core.Infra:
                 raise
             except Exception as e:   # noqa: an exception is an observable result of the op
@@ -987,7 +1087,7 @@ def impl_token(op, rec):
     r3 = '+R3:' + ','.join(rec['r3']) if rec.get('r3') else ''
     if rec['exc']:
         return 'err:' + rec['exc'] + r3
-    if kind in MUTATORS:
+    if kind in MUTATORS or kind == 'query':
         return 'unit' + r3
     o = rec['out']
     if kind in ('H', 'Hne'):
@@ -1031,7 +1131,7 @@ def model_line(case, recs):
     idx = []
     for j, (op, rec) in enumerate(zip(case['ops'], recs)):
         kind = op['op']
-        if op.get('oracle_only'):
+        if op.get('oracle_only') or kind == 'fork':
             continue
         if kind == 'corrupt' and not op.get('expect'):
             # the stacked transmit data that corrupt_data hands on (model op `stackData`)
@@ -1225,7 +1325,7 @@ CALLS = {'init': 'init_from_channel_matrix', 'rand': 'randomize', 'setpl': 'set_
          'setw': 'set_post_filter', 'H': 'H', 'bigH': 'big_H', 'Hkl': 'get_Hkl', 'Hk': 'get_Hk',
          'bigHne': 'big_H_no_ext_int', 'Hkne': 'get_Hk_without_ext_int', 'Hne': 'H_no_ext_int',
          'corrupt': 'corrupt_data', 'corruptc': 'corrupt_concatenated_data', 'layout': 'K/Nr/Nt', 'pl': 'pathloss',
-         'bigW': 'big_W', 'nv': 'noise_var.get', 'ln': 'last_noise'}
+         'bigW': 'big_W', 'nv': 'noise_var.get', 'ln': 'last_noise', 'query': 'query', 'fork': 'copy'}
 
 
 def observe(ch, ext, sh, exact):
@@ -1287,156 +1387,175 @@ def oracle_history(case):
         recs, ch = run_impl(case, want_obj=True)
         sh = Shadow(ext)
         out = []
-        trig, trig_c = None, None      # index of the latest change of channel / path loss (and filter)
-        cached = set()
-        read_since = {}
         cls_tag = 'ext' if ext else 'plain'
-        ops = case['ops']
+        ops_main = case['ops']
 
-        def klass(base, i, for_corrupt=False):
-            t = op_tags(ops[i], case)
-            j = trig_c if for_corrupt else trig
-            after = 'new'
-            if j is not None:
-                t |= op_tags(ops[j], case)
-                after = {'init': 'relayout', 'rand': 'relayout'}.get(ops[j]['op'], ops[j]['op'])
-                if ops[j].get('expect'):
-                    after = 'rejected-' + ops[j]['op']
-            return '%s:%s:after-%s%s' % (base, cls_tag, after, ('|' + ','.join(sorted(t))) if t else '')
+        def walk(ops, recs, sh, base_i=None):
+            """check one object's records against its shadow; False = stop (object out of sync)"""
+            cur = [None]
+            trig, trig_c = None, None      # index of the latest change of channel / path loss (and filter)
+            cached = set()
+            read_since = {}
 
-        for i, (op, rec) in enumerate(zip(ops, recs)):
-            kind = op['op']
-            call = CALLS[kind]
-            exp_exc = op.get('expect')
-            for r in rec.get('r3', []):
-                out.append((i, call, 'r3:%s:%s' % (r, cls_tag), 'R3: ' + r))
-            if rec['exc'] != exp_exc:
-                if rec['exc']:
-                    tags = ','.join(sorted(op_tags(op, case)))
-                    out.append((i, call, 'exception:%s:%s:%s%s' % (rec['exc'], cls_tag,
-                                                                   'pathloss' if sh.pl is not None else 'no-pathloss',
-                                                                   ('|' + tags) if tags else ''),
-                                rec.get('msg', '')))
-                else:
-                    out.append((i, call, 'no-exception:%s:%s' % (exp_exc, cls_tag), 'expected ' + exp_exc))
-                if kind in MUTATORS or kind in ('corrupt', 'corruptc'):
-                    return out    # the object is no longer in the state the history assumes
-                continue
-            if exp_exc:
-                if kind in ('init', 'rand', 'setpl', 'setw', 'noise', 'corrupt', 'corruptc'):
-                    trig = trig_c = i          # whatever is wrong after a rejected call is charged to it
-                continue
-            if kind in ('init', 'rand'):
-                raw = rec['raw']
-                want = (sum(op['nr']), sum(op['nt']) + sum(op['ntE']))
-                if raw.shape != want:
-                    out.append((i, call, 'raw-shape:%s%s' % (cls_tag, ('|' + ','.join(sorted(op_tags(op, case)))) if op_tags(op, case) else ''),
-                                'raw %s expected %s' % (raw.shape, want)))
-                    return out        # nothing more can be promised about this object
-                if kind == 'init' and not same(raw, unj(op['M'], want[1]), True):
-                    out.append((i, call, 'raw-differs:%s' % cls_tag, 'stored matrix is not the argument'))
-                sh.relayout(np.array(raw, dtype=complex), op['nr'], op['nt'], op['K'], op['ntE'])
-            elif kind == 'setpl':
-                if op['p'] is None:
-                    sh.pl = None
-                else:
-                    p = unjr(op['p'], len(op['p'][0]))
-                    sh.pl = np.hstack([p, unjr(op['pe'], len(op['pe'][0]) if op['pe'] else 0)]) if ext else p
-            elif kind == 'noise':
-                sh.nv = None if op['v'] is None else float(Fraction(op['v']))
-            elif kind == 'setw':
-                sh.W = None if op['w'] is None else [unj(w) for w in op['w']]
-            if kind in MUTATORS:
-                if kind in ('init', 'rand', 'setpl'):
-                    trig = trig_c = i
-                    cached |= {v for v, r in read_since.items() if r}
-                    read_since = {}
-                elif kind == 'setw':
-                    trig_c = i
-                continue
-            # ---- reads
-            if sh.raw is None and kind not in ('nv', 'ln', 'pl', 'bigW'):
-                continue          # no channel was ever accepted: nothing is promised about the views
-            got = rec['out']
-            bad = None
-            K, Kt = sh.K, len(sh.ntf)
-            if kind in ('H', 'Hne'):
-                cols = Kt if kind == 'H' else K
-                if not (isinstance(got, np.ndarray) and got.shape == (K, cols)):
-                    bad = 'shape %s expected %s' % (getattr(got, 'shape', None), (K, cols))
-                else:
-                    for k in range(K):
-                        for l in range(cols):
-                            if bad is None and not same(got[k, l], sh.Hkl(k, l), exact):
-                                bad = 'block (%d,%d) differs from raw block * sqrt(current path loss)' % (k, l)
-            elif kind == 'bigH':
-                bad = None if same(got, sh.bigH(), exact) else 'differs from raw * sqrt(current path loss)'
-            elif kind == 'Hkl':
-                bad = None if same(got, sh.Hkl(op['k'], op['l']), exact) else 'differs from the scaled raw block'
-            elif kind == 'Hk':
-                bad = None if same(got, sh.Hk(op['k']), exact) else 'differs from the scaled raw row block'
-            elif kind == 'bigHne':
-                bad = None if same(got, sh.bigH(True), exact) else 'differs from the user columns of the scaled matrix'
-            elif kind == 'Hkne':
-                bad = None if same(got, sh.Hk(op['k'], True), exact) else 'differs from the user columns of the row block'
-            elif kind == 'layout':
-                want = ('layout', sh.K, list(sh.nr), list(sh.nt), list(sh.ntE), len(sh.ntE))
-                bad = None if tuple(got) == want else 'K/Nr/Nt/extIntNt are %s, the configuration is %s' % (got[1:], want[1:])
-            elif kind == 'pl':
-                bad = None if same(got[1], sh.pl, True if exact else False) else 'pathloss is not the matrix set last'
-            elif kind == 'bigW':
-                bad = None if same(got[1], sh.bigW(), exact) else 'big_W is not block_diag of the filters set last'
-                if bad is None and (rec.get('W') is None) != (sh.W is None):
-                    bad = 'W presence'
-                if bad is None and sh.W is not None and not all(same(a, b, exact) for a, b in zip(rec['W'], sh.W)):
-                    bad = 'W is not the list of filters set last'
-            elif kind == 'nv':
-                g = got[1]
-                bad = None if ((g is None) == (sh.nv is None) and (g is None or float(g) == sh.nv)) \
-                    else 'noise_var is %r, set last: %r' % (g, sh.nv)
-            elif kind == 'ln':
-                bad = None if same(got[1], sh.ln, exact) else 'last_noise is not the noise of the last transmission'
-            elif kind in ('corrupt', 'corruptc'):
-                noise = rec['noise']
-                ns = op.get('ns', len(op['x'][0][0]) if op['x'] and op['x'][0] else 0)
-                xs = [unj(m).reshape(len(m), ns) for m in op['x']] + [unj(m).reshape(len(m), ns) for m in op['xe']]
-                if (noise is None) != (sh.nv is None):
-                    out.append((i, 'last_noise', klass('presence', i, True),
-                                'last_noise is %s but noise_var is %s' % ('None' if noise is None else 'set', sh.nv)))
-                elif noise is not None and noise.shape != (sum(sh.nr), ns):
-                    out.append((i, 'last_noise', klass('shape', i, True), 'last_noise shape %s' % (noise.shape,)))
-                else:
-                    sh.ln = noise
-                    if kind == 'corrupt' and 'stacked' in rec:
-                        stacked = rec['stacked']
-                        rows = [row for x_ in xs for row in x_]
-                        wstack = np.array(rows, dtype=complex).reshape(len(rows), ns)
-                        if stacked is None or not same(stacked, wstack, exact):
-                            out.append((i, call, klass('stacked-data-wrong:%s' % block_pattern(op), i, True),
-                                        'the data handed to corrupt_concatenated_data is not the stack of the blocks'))
-                    if kind == 'corrupt':
-                        want = sh.received(xs, noise)
-                        if len(got) != K:
-                            bad = '%d outputs for %d receivers' % (len(got), K)
-                        else:
-                            for k in range(K):
-                                if bad is None and not same(got[k], want[k], exact):
-                                    bad = 'receiver %d differs from W^H(sum_l sqrt(pl) H_kl x_l + last_noise)' % k
+            def klass(base, i, for_corrupt=False):
+                t = op_tags(cur[0], case)
+                j = trig_c if for_corrupt else trig
+                after = 'new'
+                if j is not None:
+                    t |= op_tags(j, case)
+                    after = {'init': 'relayout', 'rand': 'relayout'}.get(j['op'], j['op'])
+                    if j.get('expect'):
+                        after = 'rejected-' + j['op']
+                pre = '' if base_i is None else 'derived-object:'
+                return '%s%s:%s:after-%s%s' % (pre, base, cls_tag, after, ('|' + ','.join(sorted(t))) if t else '')
+
+            for i0, (op, rec) in enumerate(zip(ops, recs)):
+                i = i0 if base_i is None else base_i
+                cur[0] = op
+                kind = op['op']
+                call = CALLS[kind] if base_i is None else 'copy:' + CALLS[kind]
+                exp_exc = op.get('expect')
+                for r in rec.get('r3', []):
+                    out.append((i, call, 'r3:%s:%s' % (r, cls_tag), 'R3: ' + r))
+                if rec['exc'] != exp_exc:
+                    if rec['exc']:
+                        tags = ','.join(sorted(op_tags(op, case)))
+                        out.append((i, call, 'exception:%s:%s:%s%s' % (rec['exc'], cls_tag,
+                                                                       'pathloss' if sh.pl is not None else 'no-pathloss',
+                                                                       ('|' + tags) if tags else ''),
+                                    rec.get('msg', '')))
                     else:
-                        want = sh.received(xs, noise, split=False)
-                        bad = None if same(got, want, exact) else 'differs from W^H(big_H x + last_noise)'
-            if bad is not None:
-                how = 'cached' if (kind in cached or (kind in ('Hk', 'bigHne', 'Hkne', 'corrupt', 'corruptc')
-                                                      and 'bigH' in cached)
-                                   or (kind in ('Hkl', 'Hne') and 'H' in cached)) else 'first-read'
-                out.append((i, call, klass('wrong', i, kind in ('corrupt', 'corruptc', 'bigW', 'ln')),
-                            bad + ' (%s)' % ('the view had been read before the last change' if how == 'cached'
-                                             else 'first read of the view')))
-            read_since[kind] = True
-            if kind in ('Hk', 'bigHne', 'Hkne', 'corrupt', 'corruptc'):
-                read_since['bigH'] = True
-            if kind in ('Hkl', 'Hne'):
-                read_since['H'] = True
+                        out.append((i, call, 'no-exception:%s:%s' % (exp_exc, cls_tag), 'expected ' + exp_exc))
+                    if kind in MUTATORS or kind in ('corrupt', 'corruptc'):
+                        return False  # the object is no longer in the state the history assumes
+                    continue
+                if exp_exc:
+                    if kind in ('init', 'rand', 'setpl', 'setw', 'noise', 'corrupt', 'corruptc'):
+                        trig = trig_c = op          # whatever is wrong after a rejected call is charged to it
+                    continue
+                if kind == 'query':
+                    continue          # nothing changes (the reads that follow are compared as usual)
+                if kind == 'fork':
+                    if rec.get('child') is not None:
+                        import copy
+                        walk(op['child'], rec['child'], copy.deepcopy(sh), base_i=i)
+                    continue
+                if kind in ('init', 'rand'):
+                    raw = rec['raw']
+                    want = (sum(op['nr']), sum(op['nt']) + sum(op['ntE']))
+                    if raw.shape != want:
+                        out.append((i, call, 'raw-shape:%s%s' % (cls_tag, ('|' + ','.join(sorted(op_tags(op, case)))) if op_tags(op, case) else ''),
+                                    'raw %s expected %s' % (raw.shape, want)))
+                        return False      # nothing more can be promised about this object
+                    if kind == 'init' and not same(raw, unj(op['M'], want[1]), True):
+                        out.append((i, call, 'raw-differs:%s' % cls_tag, 'stored matrix is not the argument'))
+                    sh.relayout(np.array(raw, dtype=complex), op['nr'], op['nt'], op['K'], op['ntE'])
+                elif kind == 'setpl':
+                    if op['p'] is None:
+                        sh.pl = None
+                    else:
+                        p = unjr(op['p'], len(op['p'][0]))
+                        sh.pl = np.hstack([p, unjr(op['pe'], len(op['pe'][0]) if op['pe'] else 0)]) if ext else p
+                elif kind == 'noise':
+                    sh.nv = None if op['v'] is None else float(Fraction(op['v']))
+                elif kind == 'setw':
+                    sh.W = None if op['w'] is None else [unj(w) for w in op['w']]
+                if kind in MUTATORS:
+                    if kind in ('init', 'rand', 'setpl'):
+                        trig = trig_c = op
+                        cached |= {v for v, r in read_since.items() if r}
+                        read_since = {}
+                    elif kind == 'setw':
+                        trig_c = op
+                    continue
+                # ---- reads
+                if sh.raw is None and kind not in ('nv', 'ln', 'pl', 'bigW'):
+                    continue          # no channel was ever accepted: nothing is promised about the views
+                got = rec['out']
+                bad = None
+                K, Kt = sh.K, len(sh.ntf)
+                if kind in ('H', 'Hne'):
+                    cols = Kt if kind == 'H' else K
+                    if not (isinstance(got, np.ndarray) and got.shape == (K, cols)):
+                        bad = 'shape %s expected %s' % (getattr(got, 'shape', None), (K, cols))
+                    else:
+                        for k in range(K):
+                            for l in range(cols):
+                                if bad is None and not same(got[k, l], sh.Hkl(k, l), exact):
+                                    bad = 'block (%d,%d) differs from raw block * sqrt(current path loss)' % (k, l)
+                elif kind == 'bigH':
+                    bad = None if same(got, sh.bigH(), exact) else 'differs from raw * sqrt(current path loss)'
+                elif kind == 'Hkl':
+                    bad = None if same(got, sh.Hkl(op['k'], op['l']), exact) else 'differs from the scaled raw block'
+                elif kind == 'Hk':
+                    bad = None if same(got, sh.Hk(op['k']), exact) else 'differs from the scaled raw row block'
+                elif kind == 'bigHne':
+                    bad = None if same(got, sh.bigH(True), exact) else 'differs from the user columns of the scaled matrix'
+                elif kind == 'Hkne':
+                    bad = None if same(got, sh.Hk(op['k'], True), exact) else 'differs from the user columns of the row block'
+                elif kind == 'layout':
+                    want = ('layout', sh.K, list(sh.nr), list(sh.nt), list(sh.ntE), len(sh.ntE))
+                    bad = None if tuple(got) == want else 'K/Nr/Nt/extIntNt are %s, the configuration is %s' % (got[1:], want[1:])
+                elif kind == 'pl':
+                    bad = None if same(got[1], sh.pl, True if exact else False) else 'pathloss is not the matrix set last'
+                elif kind == 'bigW':
+                    bad = None if same(got[1], sh.bigW(), exact) else 'big_W is not block_diag of the filters set last'
+                    if bad is None and (rec.get('W') is None) != (sh.W is None):
+                        bad = 'W presence'
+                    if bad is None and sh.W is not None and not all(same(a, b, exact) for a, b in zip(rec['W'], sh.W)):
+                        bad = 'W is not the list of filters set last'
+                elif kind == 'nv':
+                    g = got[1]
+                    bad = None if ((g is None) == (sh.nv is None) and (g is None or float(g) == sh.nv)) \
+                        else 'noise_var is %r, set last: %r' % (g, sh.nv)
+                elif kind == 'ln':
+                    bad = None if same(got[1], sh.ln, exact) else 'last_noise is not the noise of the last transmission'
+                elif kind in ('corrupt', 'corruptc'):
+                    noise = rec['noise']
+                    ns = op.get('ns', len(op['x'][0][0]) if op['x'] and op['x'][0] else 0)
+                    xs = [unj(m).reshape(len(m), ns) for m in op['x']] + [unj(m).reshape(len(m), ns) for m in op['xe']]
+                    if (noise is None) != (sh.nv is None):
+                        out.append((i, 'last_noise' if base_i is None else 'copy:last_noise', klass('presence', i, True),
+                                    'last_noise is %s but noise_var is %s' % ('None' if noise is None else 'set', sh.nv)))
+                    elif noise is not None and noise.shape != (sum(sh.nr), ns):
+                        out.append((i, 'last_noise' if base_i is None else 'copy:last_noise', klass('shape', i, True),
+                                    'last_noise shape %s' % (noise.shape,)))
+                    else:
+                        sh.ln = noise
+                        if kind == 'corrupt' and 'stacked' in rec:
+                            stacked = rec['stacked']
+                            rows = [row for x_ in xs for row in x_]
+                            wstack = np.array(rows, dtype=complex).reshape(len(rows), ns)
+                            if stacked is None or not same(stacked, wstack, exact):
+                                out.append((i, call, klass('stacked-data-wrong:%s' % block_pattern(op), i, True),
+                                            'the data handed to corrupt_concatenated_data is not the stack of the blocks'))
+                        if kind == 'corrupt':
+                            want = sh.received(xs, noise)
+                            if len(got) != K:
+                                bad = '%d outputs for %d receivers' % (len(got), K)
+                            else:
+                                for k in range(K):
+                                    if bad is None and not same(got[k], want[k], exact):
+                                        bad = 'receiver %d differs from W^H(sum_l sqrt(pl) H_kl x_l + last_noise)' % k
+                        else:
+                            want = sh.received(xs, noise, split=False)
+                            bad = None if same(got, want, exact) else 'differs from W^H(big_H x + last_noise)'
+                if bad is not None:
+                    how = 'cached' if (kind in cached or (kind in ('Hk', 'bigHne', 'Hkne', 'corrupt', 'corruptc')
+                                                          and 'bigH' in cached)
+                                       or (kind in ('Hkl', 'Hne') and 'H' in cached)) else 'first-read'
+                    out.append((i, call, klass('wrong', i, kind in ('corrupt', 'corruptc', 'bigW', 'ln')),
+                                bad + ' (%s)' % ('the view had been read before the last change' if how == 'cached'
+                                                 else 'first read of the view')))
+                read_since[kind] = True
+                if kind in ('Hk', 'bigHne', 'Hkne', 'corrupt', 'corruptc'):
+                    read_since['bigH'] = True
+                if kind in ('Hkl', 'Hne'):
+                    read_since['H'] = True
+            return True
+
+        walk(ops_main, recs, sh)
+        ops = ops_main
         # ---- R7: after the whole history the object behaves like a freshly built one
         if sh.raw is not None and not out and not any(r['exc'] and not o.get('expect') for o, r in zip(ops, recs)):
             try:
@@ -1474,7 +1593,8 @@ def _harness_oracle(case):
     return None
 
 
-ORACLES = {c: _oracle_for(c) for c in sorted(set(CALLS.values()) | {'last_noise', 'fresh-twin'})}
+ORACLES = {c: _oracle_for(c) for c in sorted(set(CALLS.values()) | {'last_noise', 'fresh-twin'}
+                                             | {'copy:' + c for c in CALLS.values()} | {'copy:last_noise'})}
 ORACLES['harness'] = _harness_oracle
 
 
@@ -1708,6 +1828,44 @@ def correspond(ctx, cases, tag):
             continue
         batch.append((case, recs, line, idx))
         note_branches(ctx, case)
+    # R13: for every derived object the model runs  prefix + child operations
+    forks = []
+    for (case, recs, line, idx) in batch:
+        for j, (op, rec) in enumerate(zip(case['ops'], recs)):
+            if op['op'] == 'fork' and rec.get('child') is not None:
+                pops = [o for o in case['ops'][:j] if o['op'] != 'fork'] + op['child']
+                precs = [r for o, r in zip(case['ops'][:j], recs[:j]) if o['op'] != 'fork'] + rec['child']
+                pcase = dict(case, ops=pops)
+                pline, pidx = model_line(pcase, precs)
+                forks.append((case, j, pcase, precs, pline, pidx, len(pops) - len(op['child'])))
+                ctx.branch('r13:derived-object:%s:%s' % (case['cls'], op['how']))
+    freplies = []
+    for i in range(0, len(forks), 500):
+        freplies += drv.ask([f[4] for f in forks[i:i + 500]])
+    for fk, ((case, j, pcase, precs, pline, pidx, n0), reply) in enumerate(zip(forks, freplies)):
+        mtoks = reply.split(' ')
+        if len(mtoks) != len(pidx):
+            ctx.tie_broken('correspondence', 'driver-reply', 'reply %r for %d ops' % (reply[:200], len(pidx)), case)
+            continue
+        for (jj, part), mt in zip(pidx, mtoks):
+            if jj < n0:
+                continue
+            op, rec = pcase['ops'][jj], precs[jj]
+            try:
+                if part == 'stack':
+                    st = rec.get('stacked')
+                    it = ('mat=' + mat_tok(st)) if st is not None else ('err:' + str(rec['exc']))
+                else:
+                    it = impl_token(op, rec)
+            except Exception as e:      # noqa
+                ctx.fail('copy:' + CALLS[op['op']], 'unreadable-result:%s:%s' % (type(e).__name__, case['cls']),
+                         dict(case, ops=case['ops'][:j + 1]), repr(e)[:300])
+                break
+            ok = ctx.corr('%s:derived-object:%s' % (case['cls'], op['op']),
+                          {'history': tag, 'fork': fk, 'op': jj} if it == mt else dict(case, at=j),
+                          it, mt, nontrivial=True, key=(tag, 'fork', fk, jj, part))
+            if not ok:
+                break
     replies = []
     for i in range(0, len(batch), 500):
         replies += drv.ask([b[2] for b in batch[i:i + 500]])
